@@ -96,6 +96,21 @@ BASE = envstr("VF_BASE", "h/a/x/v1/m")
 KEY = envstr("VF_KEY", "n")
 
 
+POOLV = envstr("VF_POOLV", "smoke;left-arm;hair.sim;a b;x+y;é;_;-;v001;smoke_2").split(";")
+
+
+def roundtrip_pool(i: int) -> bool:
+    """
+    The same for a Sid built from fields with one free key taken from a pool of 10 values (names with '-', '.', ' ', '+',
+    non-ASCII, '_') by a symbolic index -- for long shipped skeletons where symbolic text in the middle is out of reach.
+    pre: 0 <= i < len(POOLV)
+    post: _
+    """
+    f = dict(Sid(BASE).fields)
+    f[KEY] = POOLV[i]
+    return _rt(Sid(fields=f))
+
+
 def roundtrip_fields(t: str) -> bool:
     """
     The same for a Sid built from FIELDS: the value of one free key is any text (also the characters '?' and ':' that
